@@ -760,6 +760,10 @@ func (g *smtpGen) addr() string {
 	} else if x < 8 {
 		return "@relay.example:" + smtpLocals[g.r.Intn(5)] + "@" + d[g.r.Intn(4)]
 	}
+	if g.r.Intn(100) < 6 {
+		// very long addresses that agree in their first 140 bytes and differ behind them (full / domain naming: the mailbox NAME is that long)
+		return strings.Repeat("l", 60) + "@" + strings.Repeat("d234567890.", 7) + []string{"one", "two", "One"}[g.r.Intn(3)] + ".example"
+	}
 	l := smtpLocals[g.r.Intn(len(smtpLocals))]
 	if g.r.Intn(100) < 70 {
 		l = smtpLocals[g.r.Intn(5)] // mostly well-formed local parts
@@ -991,7 +995,9 @@ func randHook(r *rand.Rand) hookAns {
 	case 0:
 		return hookAns{"allow", 0, ""}
 	case 1:
-		return hookAns{"deny", []int{550, 551, 5, 999, 421}[r.Intn(5)], []string{"go away", "Denied by policy!", "", "x y  z", "mailbox is at 100% of its quota", "%s %d %v%%", "50%"}[r.Intn(7)]}
+		return hookAns{"deny", []int{550, 551, 5, 999, 421}[r.Intn(5)], []string{"go away", "Denied by policy!", "", "x y  z", "mailbox is at 100% of its quota", "%s %d %v%%", "50%",
+			"550 is what you get", "5500 messages are already queued", "551", "55", "421 4.7.0 try later", "250 OK", "999-continued", " leading blank", "trailing blank ",
+			"a text of more than five hundred octets " + strings.Repeat("0123456789 ", 60) + "end", "caf\xc3\xa9 \xe2\x82\xac " + strings.Repeat("\xc3\xa9", 300)}[r.Intn(18)]}
 	}
 	return hookAns{"defer", 0, ""}
 }
